@@ -221,7 +221,7 @@ theorem C05_pinned_panics :
 
 /-! Non-vacuity -/
 def exMd : EntityDesc :=
-  ⟨"sp", [⟨[⟨redirectBinding, "https://sp/r", 1, none⟩, ⟨postBinding, "https://sp/acs", 2, some true⟩], []⟩]⟩
+  ⟨"sp", [⟨[⟨redirectBinding, "https://sp/r", 1, none⟩, ⟨postBinding, "https://sp/acs", 2, some true⟩], [], []⟩]⟩
 
 example : (validate ⟨"https://idp/sso", 90000⟩ 50000 (fun i => if i = "sp" then .found exMd else .notExist)
     ⟨"id", some "sp", "", "2.0", 0, "", ""⟩).isOk = true := by decide
